@@ -404,14 +404,15 @@ func c01Place(pos string, hs []WHdr) (pre, extra []WHdr) {
 func init() {
 	hv := []string{"absent", "token", "supported-k", "contact-m", "oddcase", "repeat", "empty", "pct", "mix", "utf8", "bin", "big16k", "expires", "subject-s", "ctype-c", "colons", "substate", "maxfwd-dup", "upper"}
 	bodies := []string{"empty", "one", "text", "soup", "sipmsg", "4097", "60k"}
-	cln := []string{"Content-Length", "l", "absent", "content-length", "CONTENT-LENGTH", "L"}
+	// the last two: blanks between the name and the colon (HCOLON) - a message the parser may refuse; relayed, it carries ONE Content-Length
+	cln := []string{"Content-Length", "l", "absent", "Content-Length ", "content-length", "CONTENT-LENGTH", "L", "l\t"}
 	// (A) content enumeration on the default configuration
 	c01A = &EnumSpec{Feats: []Feat{
 		{Name: "kind", Vals: []string{"request-to-backend", "response", "request-by-route-tcp", "pipelined-tcp"}},
 		{Name: "h1", Vals: hv}, {Name: "h2", Vals: hv}, {Name: "h3", Vals: hv, Quick: 1},
 		{Name: "pos", Vals: []string{"after-cseq", "top", "split"}},
 		{Name: "body", Vals: bodies},
-		{Name: "clname", Vals: cln, Quick: 3},
+		{Name: "clname", Vals: cln, Quick: 4},
 	}, Seqs: [][]string{{"h1", "h2", "h3"}}, Sample: 10000}
 	c01A.Valid = func(v []int) bool {
 		s := c01A
